@@ -49,6 +49,9 @@ func (w *World) rtypeDyn() types.Type {
 	}
 	pkg := w.prog.ImportedPackage("reflect")
 	if pkg == nil {
+		pkg = w.prog.ImportedPackage("internal/reflectlite")
+	}
+	if pkg == nil {
 		panic(unsupportedf("package reflect is not loaded"))
 	}
 	obj := pkg.Pkg.Scope().Lookup("rtype")
@@ -180,7 +183,7 @@ func init() {
 			return IfaceV{}, ctlRet
 		}
 		return c.p.mkRType(iv.t), ctlRet
-	}, "reflect.TypeOf")
+	}, "reflect.TypeOf", "internal/reflectlite.TypeOf")
 	reg(func(c *callCtx) (Value, ctl) {
 		iv, ok := c.args[0].(IfaceV)
 		if !ok || iv.t == nil {
